@@ -1,1 +1,8 @@
-//! Shared helpers for the vnexus check parts.
+//! Shared helpers for the vnexus check parts (C17, C18): a bootstrapped
+//! Cognitive Nexus fixture over `InMemory`, statement execution through the
+//! real parser, and the observable-state DUMP used as a differential oracle.
+
+pub mod dump;
+pub mod fixture;
+
+pub use fixture::{Mode, Nx, Outcome, Stmt, Who, World};
